@@ -124,43 +124,14 @@ theorem pulse_phase_exact (pol : Int) (b : Block) (s : St) (h : b.timings.pulses
   simp only [ne_eq, h, not_false_eq_true, ↓reduceIte, emit_eq]
   exact ⟨rfl, rfl⟩
 
-/-- The full-strength statement (kept visible; it is **false** for the code as it is, see
-`C11_full_false`) for the data part on the table path: the new edges are
-the running sums of the pulse sequences of exactly the block's bits (8 per byte,
-`used_bits` of the last one), followed by the tail pulse. -/
-def C11_full : Prop :=
-  ∀ (pol : Int) (l : Bool) (b : Block) (s : St), b.data ≠ [] → hasZero b.timings = false →
-    (dataPhase pol l b s).edges =
-      checkPolarity b.timings.polarity pol s.edges s.t ++
-        cumsum s.t (bitPulses b.timings.zero b.timings.one (dataBits b.timings.usedBits b.data) ++
-          tailL b.timings.tail)
-
-/-- **Finding.**  `C11_full` is false for the code as it is: with bit sequences
-of different lengths (PZX `DATA`, `p0 ≠ p1`) and fewer than 8 used bits, the table path
-truncates the last byte at `(len(bt) * used_bits) // 8` *pulses*, which is not a bit
-boundary.  Witness: one bit `1`, `s0 = [100]`, `s1 = [200, 300]`: the block specifies the
-pulses 200, 300; `get_edges` produces only 200. -/
-theorem C11_full_false : ¬ C11_full := by
-  intro h
-  have := h 0 true ⟨{ zero := [100], one := [200, 300], usedBits := 1, polarity := some 1 }, [128], none⟩
-    ⟨[0, 0], 0, -1, none, []⟩ (by decide) (by decide)
-  revert this
-  decide
-
-/-- The same witness through the whole of `get_edges` (as replayed on the real code by
-the harness): edges `[0, 0, 200]` instead of `[0, 0, 200, 500]`. -/
-theorem finding_witness_edges :
-    (getEdges [⟨{ zero := [100], one := [200, 300], usedBits := 1, polarity := some 1 }, [128], none⟩] 0 0).1
-      = [0, 0, 200] := by
-  decide
-
-/-- The data part on the table path is exact whenever both bit sequences have the same
-number of pulses (TAP, every TZX block, PZX blocks with `p0 = p1`) or all 8 bits of the
-last byte are used.  Missing for the full statement: PZX `DATA` blocks with `p0 ≠ p1`
-and `used_bits < 8` (see `C11_full_false`). -/
-theorem data_phase_exact_partial (pol : Int) (l : Bool) (b : Block) (s : St)
-    (hd : b.data ≠ []) (hz : hasZero b.timings = false)
-    (hu : b.timings.zero.length = b.timings.one.length ∨ 8 ≤ b.timings.usedBits) :
+/-- The data part on the table path is exact, for **every** pair of bit pulse sequences
+(also of different lengths, PZX `DATA` with `p0 ≠ p1`) and every used-bits count: the new
+edges are the running sums of the pulse sequences of exactly the block's bits (8 per byte,
+`min used_bits 8` of the last one), followed by the tail pulse.
+(Before the fix of `get_edges` — last byte cut at `(len(bt) * used_bits) // 8` pulses — this
+statement was false for `p0 ≠ p1` with `used_bits < 8`; see `regression_p0_ne_p1_used_bits`.) -/
+theorem data_phase_exact (pol : Int) (l : Bool) (b : Block) (s : St)
+    (hd : b.data ≠ []) (hz : hasZero b.timings = false) :
     (dataPhase pol l b s).edges =
       checkPolarity b.timings.polarity pol s.edges s.t ++
         cumsum s.t (bitPulses b.timings.zero b.timings.one (dataBits b.timings.usedBits b.data) ++
@@ -169,19 +140,27 @@ theorem data_phase_exact_partial (pol : Int) (l : Bool) (b : Block) (s : St)
       sumN (bitPulses b.timings.zero b.timings.one (dataBits b.timings.usedBits b.data) ++
           tailL b.timings.tail) := by
   have he := dataPhase_edges pol l b s hd
-  rw [he.1, he.2, dataCore_fast _ _ _ _ _ hz, fastSeq_eq_spec _ _ _ _ hd hu]
+  rw [he.1, he.2, dataCore_fast _ _ _ _ _ hz, fastSeq_eq_spec _ _ _ _ hd]
   exact ⟨rfl, rfl⟩
 
-/-- Where both data paths apply (no zero-length pulse, `used_bits ≤ 8`, equal sequence
-lengths or 8 used bits) the merge loop and the table path produce the same edges and
-the same clock. -/
+/-- Regression input of the former finding, through the whole of `get_edges`: a PZX `DATA`
+block of one bit `1` with `s0 = [100]`, `s1 = [200, 300]` yields both pulses of the bit
+(the unfixed code produced `[0, 0, 200]`), and a 3-bit block `101` yields 200,300 / 100 / 200,300. -/
+theorem regression_p0_ne_p1_used_bits :
+    (getEdges [⟨{ zero := [100], one := [200, 300], usedBits := 1, polarity := some 1 }, [128], none⟩] 0 0).1
+      = [0, 0, 200, 500] ∧
+    (getEdges [⟨{ zero := [100], one := [200, 300], usedBits := 3, polarity := some 0 }, [0xA0], none⟩] 0 0).1
+      = [0, 200, 500, 600, 800, 1100] := by
+  decide
+
+/-- Where both data paths apply (no zero-length pulse, `used_bits ≤ 8`) the merge loop and
+the table path produce the same edges and the same clock, whatever the lengths of the two
+bit sequences. -/
 theorem fast_path_eq_slow_path (zero one : List Nat) (ub : Nat) (data : List Nat) (e : List Int) (t : Int)
-    (hd : data ≠ []) (hz : 0 ∉ zero ∧ 0 ∉ one) (hub : ub ≤ 8)
-    (hu : zero.length = one.length ∨ ub = 8) :
+    (hd : data ≠ []) (hz : 0 ∉ zero ∧ 0 ∉ one) (hub : ub ≤ 8) :
     let r := (slowSeq zero one ub data).foldl mergeStep ⟨e, t, 0, 0⟩
     (r.edges, r.t) = emit (fastSeq zero one ub data) (e, t) := by
   intro r
-  have hu' : zero.length = one.length ∨ 8 ≤ ub := by omega
   have hnz : ∀ d ∈ slowSeq zero one ub data, d ≠ 0 := by
     intro d hdm h0
     rw [slowSeq_eq_spec _ _ _ _ hub] at hdm
@@ -189,7 +168,7 @@ theorem fast_path_eq_slow_path (zero one : List Nat) (ub : Nat) (data : List Nat
     · exact hz.1 (h0 ▸ h)
     · exact hz.2 (h0 ▸ h)
   have := mergeFold_nozero _ ⟨e, t, 0, 0⟩ hnz rfl (by simp)
-  rw [emit_eq, fastSeq_eq_spec _ _ _ _ hd hu', ← slowSeq_eq_spec _ _ _ _ hub]
+  rw [emit_eq, fastSeq_eq_spec _ _ _ _ hd, ← slowSeq_eq_spec _ _ _ _ hub]
   exact Prod.ext this.1 this.2
 
 /-- The zero-pulse merge loop (`p`/`q` parities, `edges[-1] += d`) computes the same
@@ -220,9 +199,8 @@ theorem merge_level_equiv (ds : List Nat) (e : List Int) (t : Int) (hlast : e.ge
 no zero-length bit pulses): the edge list is, after the initial edge(s) at `first_edge`,
 exactly the play-out of the tape's events — every tone/sync pulse, every pulse of every bit
 of every byte (`used_bits` of the last), in order, each ending with an edge; pauses only
-move the clock; the pause of the last block is not played.
-Excluded as in `data_phase_exact_partial`: `p0 ≠ p1` with `used_bits < 8`. -/
-theorem tape_edges_exact_partial (blocks : List Block) (fe pol : Int)
+move the clock; the pause of the last block is not played. -/
+theorem tap_tzx_tape_edges_exact (blocks : List Block) (fe pol : Int)
     (hb : ∀ b ∈ blocks, PlainBlock b) (ht : ∀ b ∈ blocks, b.timings.tail = 0) :
     (getEdges blocks fe pol).1 =
       (if pol % 2 ≠ 0 then [fe, fe] else [fe]) ++ playEvents fe (tapeEvents blocks) := by
@@ -241,11 +219,10 @@ theorem decode_cumsum (zero one : List Nat) (hpf : PrefixFree zero one) (bits : 
   exact decodeBits_bitPulses zero one hpf bits
 
 /-- The edges that `get_edges` appends for a data block decode back to exactly the
-block's bits.  Excluded (see `C11_full_false`): `p0 ≠ p1` with
-`used_bits < 8`; zero-length pulses (merge path) are not decodable by distance. -/
-theorem data_phase_decodes_partial (pol : Int) (l : Bool) (b : Block) (s : St)
+block's bits, for every pair of prefix-free bit sequences and every used-bits count
+(zero-length pulses — the merge path — cannot be decoded by distance and are excluded). -/
+theorem data_phase_decodes (pol : Int) (l : Bool) (b : Block) (s : St)
     (hd : b.data ≠ []) (hz : hasZero b.timings = false)
-    (hu : b.timings.zero.length = b.timings.one.length ∨ 8 ≤ b.timings.usedBits)
     (hpf : PrefixFree b.timings.zero b.timings.one) :
     ∃ dataE : List Int,
       (dataPhase pol l b s).edges =
@@ -256,7 +233,7 @@ theorem data_phase_decodes_partial (pol : Int) (l : Bool) (b : Block) (s : St)
         some (dataBits b.timings.usedBits b.data) := by
   refine ⟨cumsum s.t (bitPulses b.timings.zero b.timings.one (dataBits b.timings.usedBits b.data)), ?_,
     decode_cumsum _ _ hpf _ _⟩
-  rw [(data_phase_exact_partial pol l b s hd hz hu).1, cumsum_append]
+  rw [(data_phase_exact pol l b s hd hz).1, cumsum_append]
   unfold tailL
   by_cases ht : b.timings.tail = 0
   · simp [ht, cumsum]
@@ -277,11 +254,9 @@ its range delimits exactly that block's data: all edges up to `start` are at or
 before the clock `t0` at which the data began (`edges[start] = t0` when the block
 has pilot/sync pulses), the edges `start+1 … end` are the running sums from `t0`
 of the pulses of the block's bits plus the tail pulse, and — when the bit sequences
-are prefix-free — measuring them decodes to the block's bits.
-Excluded: `p0 ≠ p1` with `used_bits < 8`. -/
-theorem datablock_ranges_decode_partial (blocks : List Block) (fe pol : Int)
-    (hbyte : ∀ b ∈ blocks, ByteBlock b)
-    (hu : ∀ b ∈ blocks, b.timings.zero.length = b.timings.one.length ∨ 8 ≤ b.timings.usedBits) :
+are prefix-free — measuring them decodes to the block's bits. -/
+theorem datablock_ranges_decode (blocks : List Block) (fe pol : Int)
+    (hbyte : ∀ b ∈ blocks, ByteBlock b) :
     let s := runBlocks pol blocks (initSt fe pol)
     ∀ db ∈ s.dbs, db.fastLoad = true →
       ∃ b ∈ blocks, ∃ t0 : Int,
@@ -300,7 +275,7 @@ theorem datablock_ranges_decode_partial (blocks : List Block) (fe pol : Int)
   have hseg := runBlocks_seg blocks pol blocks (initSt fe pol)
     (fun b hb => ⟨hb, hbyte b hb⟩) (initSt_inv fe pol) (by intro d hd; simp [initSt] at hd)
   obtain ⟨b, hb, t0, h1, h2, h3, h4, h5, h6, h7, h8, h9⟩ := hseg db hdb hf
-  have hspec := fastSeq_eq_spec b.timings.zero b.timings.one b.timings.usedBits b.data h2 (hu b hb)
+  have hspec := fastSeq_eq_spec b.timings.zero b.timings.one b.timings.usedBits b.data h2
   refine ⟨b, hb, t0, h1, h2, h5, h4, h6, h7, ?_, ?_⟩
   · rw [h8, dataPulses, hspec]
   · intro hpf
@@ -311,9 +286,8 @@ theorem datablock_ranges_decode_partial (blocks : List Block) (fe pol : Int)
 
 /-- For tapes without tail pulses (every TAP and TZX tape) the statement above holds
 for the final result of `get_edges` itself. -/
-theorem tap_tzx_datablock_ranges_decode_partial (blocks : List Block) (fe pol : Int)
+theorem tap_tzx_datablock_ranges_decode (blocks : List Block) (fe pol : Int)
     (hbyte : ∀ b ∈ blocks, ByteBlock b) (htail : ∀ b ∈ blocks, b.timings.tail = 0)
-    (hu : ∀ b ∈ blocks, b.timings.zero.length = b.timings.one.length ∨ 8 ≤ b.timings.usedBits)
     (hpf : ∀ b ∈ blocks, b.data ≠ [] → PrefixFree b.timings.zero b.timings.one) :
     let r := getEdges blocks fe pol
     ∀ db ∈ r.2, db.fastLoad = true →
@@ -329,7 +303,7 @@ theorem tap_tzx_datablock_ranges_decode_partial (blocks : List Block) (fe pol : 
     finish_no_tail blocks fe pol htail
   rw [hr] at hdb ⊢
   obtain ⟨b, hb, t0, h1, hd, _, h3, h4, h5, h6, h7⟩ :=
-    datablock_ranges_decode_partial blocks fe pol hbyte hu db hdb hf
+    datablock_ranges_decode blocks fe pol hbyte db hdb hf
   refine ⟨b, hb, t0, h1, h3, h4, h5, ?_⟩
   have := h7 (hpf b hb hd)
   simp only [tailL, htail b hb, ne_eq, not_true_eq_false, ↓reduceIte, List.length_nil, Nat.sub_zero,
@@ -597,13 +571,13 @@ example : dataBits 3 [0xA0] = [true, false, true] := by decide
 example : PrefixFree [5, 5] [9, 9] := by simp [PrefixFree]
 example : ¬ PrefixFree [5] [5, 5] := by simp [PrefixFree]
 example : ByteBlock exBlock := Or.inl (by decide)
-example : PlainBlock exBlock := ⟨rfl, Or.inl (by decide), Or.inl rfl⟩
+example : PlainBlock exBlock := ⟨rfl, Or.inl (by decide)⟩
 example : PolOk exBlock := Or.inl rfl
 example : ∀ b ∈ [exBlock, exBlock], ByteBlock b ∧ PlainBlock b ∧ b.timings.tail = 0 := by
   intro b hb
   simp at hb; subst hb
-  exact ⟨Or.inl (by decide), ⟨rfl, Or.inl (by decide), Or.inl rfl⟩, rfl⟩
--- `tape_edges_exact_partial` on a two-block tape: the 100 T-state pause between the blocks is a gap
+  exact ⟨Or.inl (by decide), ⟨rfl, Or.inl (by decide)⟩, rfl⟩
+-- `tap_tzx_tape_edges_exact` on a two-block tape: the 100 T-state pause between the blocks is a gap
 example : (getEdges [exBlock, exBlock] 0 0).1 = [0] ++ playEvents 0 (tapeEvents [exBlock, exBlock]) := by decide
 example : (tapeEvents [exBlock, exBlock]).length = 21 := by decide
 -- `merge_level_equiv`: the hypothesis "no pause since the last edge"
